@@ -9,20 +9,19 @@ on every run (`MirVerif.Gen.C15`), against the documented operand classes of `Mo
 (transcribed from MIR.md).  The model is tied to the C code by the exhaustive correspondence of
 `checks/c15.py` (every cell through the public API under ASan).
 
-FULL STATEMENTS THAT ARE FALSE ON THE CURRENT CODE (kept here, see `knownDeviations`):
+FULL STATEMENT THAT IS FALSE ON THE CURRENT CODE (kept here, see `knownDeviations`):
 
 * `grid` (full): `∀ c i o sig dp, docSig c = some sig → sig[i]? = some dp →
      cellVerdict insnDescs c i o = docOperand dp false o`
-  — false at (laddr, 0), (addr*, 1), the va_list positions with undef-typed memory, (prset, 0),
-  and the property constants given as uint.  `grid` below is the exact version: equality holds
-  *iff* the cell is not covered by a listed deviation; `grid_full_iff` says the full statement is
-  equivalent to the list containing no grid-level entry.
-* `ret_matches_results` (full): a `ret` whose operand count differs from the number of results is
-  rejected with `MIR_vararg_func_error` — today the error path dereferences NULL (`ret_count`).
-* `call_matches_proto` (full, for `jcall` as well): every argument of a `jcall` is checked against
-  the prototype — today `MIR_insn_op_mode` has no case for `MIR_JCALL` (`jcall_unchecked_today`).
-* `call_target` (full): a reference to a non-callable item as call target is rejected — today an
-  assert fails (assert builds) or it is accepted (`call_ref_target`).
+  — false only at the property constants of prset/prbeq/prbne given as uint
+  (`C15:prop-uint-rejected`).  `grid` below is the exact version: equality holds *iff* the cell is
+  not covered by a listed deviation; `grid_full_iff` says the full statement is equivalent to the
+  list containing no grid-level entry.
+
+Restored to their full form after the fixes 6cabb311 (laddr), d055fe2e (addr), 5ff22cdb (va_list),
+0147517d (prset), e6c2b500 (ret count), 27244d2d (jcall), 37892d9f (call target):
+`ret_count`, `call_matches_proto` / `call_address` (now for jcall too), `call_ref_target`, and the
+grid at (laddr,0), (addr*,1), the va_list positions, (prset,0).
 -/
 namespace MirVerif.Check
 open MirVerif.Gen.C15
@@ -72,12 +71,7 @@ theorem grid_partial (c i : Nat) (o : OpS) (sig : List DocPos) (dp : DocPos)
 
 /-- a concrete cell for each grid-level deviation -/
 def Deviation.witness : Deviation → Option (Nat × Nat × OpS)
-  | .laddrDstNotOut => some (C_LADDR, 0, .int)
-  | .addrSrcNotVar => some (C_ADDR, 1, .int)
-  | .vaListUndefMem => some (C_VA_START, 0, .mem ⟨.undef, false, .r (.decl .i64), .none⟩)
-  | .prsetDstNotVar => some (C_PRSET, 0, .int)
   | .propUintRejected => some (C_PRSET, 1, .uint)
-  | _ => none
 
 theorem witness_covered (d : Deviation) (c i : Nat) (o : OpS) (h : d.witness = some (c, i, o)) :
     (docSig c).isSome = true ∧ ((docSig c).getD [])[i]?.isSome = true ∧ d.at c i = true
@@ -85,8 +79,8 @@ theorem witness_covered (d : Deviation) (c i : Nat) (o : OpS) (h : d.witness = s
   cases d <;> simp [Deviation.witness] at h <;> obtain ⟨rfl, rfl, rfl⟩ := h <;> decide
 
 /-- the counter-examples: every listed grid-level deviation is a cell where the current table
-contradicts MIR.md (for `laddrDstNotOut`: `laddr 5, L` — the model accepts an immediate as the
-destination, the documentation demands `out_op`) -/
+contradicts MIR.md (for `propUintRejected`: `prset r, <uint 5>` — rejected with `op_mode`, the
+documentation accepts an integer constant) -/
 theorem deviation_real (d : Deviation) (hd : d ∈ knownDeviations) (c i : Nat) (o : OpS)
     (hw : d.witness = some (c, i, o)) :
     ∃ sig dp, docSig c = some sig ∧ sig[i]? = some dp ∧
@@ -130,11 +124,17 @@ theorem grid_full_iff :
     have hw := hnone d hd
     cases d <;> simp [Deviation.witness] at hw <;> simp [Deviation.at]
 
-/-- what the accepted/rejected verdict of the laddr cell is today (replayed on the real code) -/
-example : (cellVerdict insnDescs C_LADDR 0 .int
-      = if Deviation.laddrDstNotOut ∈ knownDeviations then .ok else .err E_out_op)
-    ∧ docOperand Doc.Io false .int = .err E_out_op := by
+/-- cells of defects that were fixed in /repo: implementation = documentation again -/
+example : cellVerdict insnDescs C_LADDR 0 .int = .err E_out_op
+    ∧ cellVerdict insnDescs C_ADDR 1 .int = .err E_op_mode
+    ∧ cellVerdict insnDescs C_PRSET 0 .int = .err E_op_mode
+    ∧ cellVerdict insnDescs C_VA_END 0 (.mem ⟨.undef, false, .r (.decl .i64), .none⟩) = .ok
+    ∧ cellVerdict insnDescs C_MOV 1 (.mem ⟨.undef, false, .r (.decl .i64), .none⟩) = .err E_wrong_type := by
   decide
+/-- the remaining deviation -/
+example : (cellVerdict insnDescs C_PRSET 1 .uint
+      = if Deviation.propUintRejected ∈ knownDeviations then .err E_op_mode else .ok)
+    ∧ docOperand .propConst false .uint = .ok := by decide
 example : deviates C_FADD 2 (.reg (.decl .d)) = false ∧
     cellVerdict insnDescs C_FADD 2 (.reg (.decl .d)) = .err E_op_mode := by decide
 
@@ -184,18 +184,16 @@ theorem ret_matches_results (asserts : Bool) (descs : Descs) (protos : List Prot
   rw [finishPos_ret]
   exact typed_pos _ false false o hres
 
-/-- `ret_count`: operand count ≠ number of results.  Full statement: `.err E_vararg_func`.
-Today the error path evaluates `curr_func->nres` after `curr_func = NULL`. -/
+/-- `ret_count` (`ret_matches_results`, count part): a `ret` whose operand count differs from the
+number of results of the function is rejected with `vararg_func`; all functions, all operand lists -/
 theorem ret_count (fn : Func) (prevs : List Insn) (ops : List Operand)
     (hn : ops.length ≠ fn.res.length) :
-    insnLevel fn prevs true false ⟨C_RET, ops⟩ =
-      if Deviation.retCountCrash ∈ knownDeviations then .crash else .err E_vararg_func := by
+    insnLevel fn prevs true false ⟨C_RET, ops⟩ = .err E_vararg_func := by
   unfold insnLevel
   have h1 : (C_RET == C_PHI || C_RET == C_USE) = false := by decide
   have h2 : (C_RET == C_VA_START) = false := by decide
   have h3 : (C_RET == C_JRET) = false := by decide
   simp [h1, h2, h3, hn]
-  decide
 
 /-- `ret` and `jret` cannot be mixed; `jret` needs a function without results -/
 theorem ret_jret_rules (fn : Func) (prevs : List Insn) (ops : List Operand) :
@@ -214,12 +212,10 @@ theorem ret_jret_rules (fn : Func) (prevs : List Insn) (ops : List Operand) :
 
 example : finishFuncCheck true insnDescs [] ⟨false, [.i64, .d]⟩ [⟨C_RET, [.int, .reg (.decl .d)]⟩] = .ok
     ∧ finishFuncCheck true insnDescs [] ⟨false, [.i64, .d]⟩ [⟨C_RET, [.int, .float]⟩] = .err E_op_mode
-    ∧ finishFuncCheck true insnDescs [] ⟨false, [.i64, .d]⟩ [⟨C_RET, [.int]⟩]
-        = (if Deviation.retCountCrash ∈ knownDeviations then .crash else .err E_vararg_func) := by decide
+    ∧ finishFuncCheck true insnDescs [] ⟨false, [.i64, .d]⟩ [⟨C_RET, [.int]⟩] = .err E_vararg_func := by
+  decide
 
 /-! ## 5. calls against their prototype -/
-
-def isCallOrInline (c : Nat) : Bool := c == C_CALL || c == C_INLINE
 
 /-- `call_matches_proto` (count): creation of a call-like insn whose first operand is prototype `k` -/
 theorem call_count (descs : Descs) (protos : List Proto) (code k : Nat) (rest : List Operand)
@@ -288,26 +284,16 @@ theorem getD_all {α} (l : List α) (p : α → Bool) (d : α) (i : Nat) (h : l.
   rw [this]
   exact List.all_eq_true.mp h _ (List.getElem_mem hi)
 
-/-- `call_matches_proto` (operand classes), `call` and `inline`: every result position is an
-output of the result type, every argument a value of the parameter type (block types as block
+/-- `call_matches_proto` (operand classes), `call`, `inline` and `jcall`: every result position is
+an output of the result type, every argument a value of the parameter type (block types as block
 memory), extra arguments of a vararg call are only checked for well-formedness; for all
 prototypes, all operand lists. -/
 theorem call_matches_proto (asserts : Bool) (descs : Descs) (protos : List Proto) (fn : Func)
     (code k : Nat) (rest : List Operand) (pr : Proto) (i : Nat) (o : OpS)
-    (hc : isCallOrInline code = true) (hp : protos[k]? = some pr) (hwf : pr.wf = true)
+    (hcall : isCall code = true) (hp : protos[k]? = some pr) (hwf : pr.wf = true)
     (hcnt : callCountOk pr (rest.length + 1) = true) (hi2 : 2 ≤ i) (hil : i < rest.length + 1) :
     finishPos asserts descs protos fn ⟨code, .ref .proto k :: rest⟩ i o
       = docOperand (docCallPos pr i) true o := by
-  have hcall : isCall code = true := by
-    simp only [isCallOrInline, Bool.or_eq_true] at hc
-    simp only [isCall, Bool.or_eq_true]
-    rcases hc with h | h
-    · exact Or.inl (Or.inl h)
-    · exact Or.inl (Or.inr h)
-  have hnj : (code == C_JCALL) = false := by
-    cases h : code == C_JCALL
-    · rfl
-    · rw [beq_iff_eq] at h; subst h; exact absurd hc (by decide)
   have hun : (code == C_UNSPEC) = false := by
     cases h : code == C_UNSPEC
     · rfl
@@ -319,7 +305,7 @@ theorem call_matches_proto (asserts : Bool) (descs : Descs) (protos : List Proto
   unfold finishPos
   simp only [hun, Bool.false_and, Bool.false_eq_true, if_false, hcall, if_true, protoOf, List.head?_cons, hp]
   unfold callPos docCallPos
-  simp only [hi0, hi1, Bool.false_and, Bool.false_eq_true, if_false, hnj]
+  simp only [hi0, hi1, Bool.false_and, Bool.false_eq_true, if_false]
   rw [callCountOk_iff] at hcnt
   by_cases hr : i < pr.res.length + 2
   · have hnv : ¬ (i ≥ pr.res.length + 2 + pr.args.length) := by omega
@@ -349,19 +335,9 @@ theorem call_matches_proto (asserts : Bool) (descs : Descs) (protos : List Proto
 /-- the second operand of a call given as a value (not a reference) must be an integer value -/
 theorem call_address (asserts : Bool) (descs : Descs) (protos : List Proto) (fn : Func)
     (code k : Nat) (rest : List Operand) (pr : Proto) (o : OpS)
-    (hc : isCallOrInline code = true) (hp : protos[k]? = some pr) (hnr : o.mode ≠ OP_REF) :
+    (hcall : isCall code = true) (hp : protos[k]? = some pr) (hnr : o.mode ≠ OP_REF) :
     finishPos asserts descs protos fn ⟨code, .ref .proto k :: rest⟩ 1 o
       = docOperand (.val .int false) true o := by
-  have hcall : isCall code = true := by
-    simp only [isCallOrInline, Bool.or_eq_true] at hc
-    simp only [isCall, Bool.or_eq_true]
-    rcases hc with h | h
-    · exact Or.inl (Or.inl h)
-    · exact Or.inl (Or.inr h)
-  have hnj : (code == C_JCALL) = false := by
-    cases h : code == C_JCALL
-    · rfl
-    · rw [beq_iff_eq] at h; subst h; exact absurd hc (by decide)
   have hun : (code == C_UNSPEC) = false := by
     cases h : code == C_UNSPEC
     · rfl
@@ -373,18 +349,17 @@ theorem call_address (asserts : Bool) (descs : Descs) (protos : List Proto) (fn 
   have h10 : ((1 : Nat) == 0) = false := by decide
   have hv : ¬ ((1 : Nat) ≥ pr.res.length + 2 + pr.args.length) := by omega
   have h2 : ((decide (2 ≤ (1 : Nat))) && decide ((1 : Nat) < pr.res.length + 2)) = false := by simp
-  simp only [h10, Bool.false_eq_true, if_false, hm, Bool.and_false, hnj, hv, decide_false, beq_self_eq_true,
+  simp only [h10, Bool.false_eq_true, if_false, hm, Bool.and_false, hv, decide_false, beq_self_eq_true,
     if_true, h2]
   exact (moded_pos true o).1
 
-/-- `call_ref_target`: the second operand given as a reference.  Full statement: a reference to a
-non-callable item is rejected.  Today: skipped when callable; otherwise an assert fails in an
-assert-enabled build and a default (NDEBUG) build accepts it. -/
+/-- `call_ref_target`: the second operand given as a reference must name a callable item (function,
+import, export, forward); a reference to data, bss or a prototype is rejected with `call_op` -/
 theorem call_ref_target (asserts : Bool) (descs : Descs) (protos : List Proto) (fn : Func)
     (code k : Nat) (rest : List Operand) (pr : Proto) (r : RefS)
     (hc : isCall code = true) (hp : protos[k]? = some pr) :
     finishPos asserts descs protos fn ⟨code, .ref .proto k :: rest⟩ 1 (.ref r)
-      = if asserts && !callableRef r then .crash else .ok := by
+      = if callableRef r then .ok else .err E_call_op := by
   have hun : (code == C_UNSPEC) = false := by
     cases h : code == C_UNSPEC
     · rfl
@@ -395,18 +370,16 @@ theorem call_ref_target (asserts : Bool) (descs : Descs) (protos : List Proto) (
   have h10 : ((1 : Nat) == 0) = false := by decide
   have hm : ((OpS.ref r).mode == OP_REF) = true := by simp [OpS.mode]
   simp only [h10, Bool.false_eq_true, if_false, beq_self_eq_true, hm, Bool.and_self, if_true]
-  cases hcond : (asserts && !callableRef r) <;> simp
+  cases hcond : callableRef r <;> simp
 
-/-- what `jcall` does today: argument positions 2..4 read zero bytes of the `jcall` row
-(`MIR_OP_UNDEF`: anything passes), positions ≥ 5 index outside `op_modes[5]` -/
-theorem jcall_unchecked_today (h : Deviation.jcallUnchecked ∈ knownDeviations) :
-    let pr : Proto := ⟨false, [], [(.i64, 0), (.i64, 0), (.i64, 0), (.i64, 0)]⟩
-    let ops : List Operand := [.ref .proto 0, .ref .func 0, .reg (.decl .f), .float, .label, .int]
-    finishPos true insnDescs [pr] ⟨false, []⟩ ⟨C_JCALL, ops⟩ 2 (.reg (.decl .f)) = .ok
-    ∧ finishPos true insnDescs [pr] ⟨false, []⟩ ⟨C_JCALL, ops⟩ 4 .label = .ok
-    ∧ finishPos true insnDescs [pr] ⟨false, []⟩ ⟨C_JCALL, ops⟩ 5 .int = .crash
-    ∧ docOperand (docCallPos pr 2) true (.reg (.decl .f)) = .err E_op_mode := by
-  have _ := h
+/-- `jcall` is judged like `call` (27244d2d): wrong argument class, many arguments, bad target -/
+example : let pr : Proto := ⟨false, [], [(.i64, 0), (.i64, 0), (.i64, 0), (.i64, 0), (.i64, 0)]⟩
+    let good : List Operand := [.ref .proto 0, .ref .func 0, .int, .int, .int, .int, .reg (.decl .i64)]
+    finishFuncCheck true insnDescs [pr] ⟨false, []⟩ [⟨C_JCALL, good⟩] = .ok
+    ∧ finishFuncCheck true insnDescs [pr] ⟨false, []⟩
+        [⟨C_JCALL, [.ref .proto 0, .ref .func 0, .int, .int, .int, .int, .reg (.decl .f)]⟩] = .err E_op_mode
+    ∧ finishFuncCheck true insnDescs [pr] ⟨false, []⟩
+        [⟨C_JCALL, [.ref .proto 0, .ref .data 0, .int, .int, .int, .int, .int]⟩] = .err E_call_op := by
   decide
 
 example : let pr : Proto := ⟨true, [.i64], [(.d, 0), (.blk1, 16)]⟩
